@@ -59,6 +59,9 @@ def run(ctx):
     # correspondence of ground program and table) and history independence is a theorem (C08_ground_history_independent)
     import ground_util
     gerr = ground_util.guarded(ctx, "history", 200, 6000)
+    import groundfo_util           # the same on programs WITH variables (first-order model, exact correspondence)
+    gerr2 = groundfo_util.guarded(ctx, "history", 150, 5000)
+    gerr = gerr or gerr2
     rc = cfgprop.run(ctx, MODULE, THEOREMS, variants, nq=50, nt=700, level="other",
                      explanation="Histories are explored, not proved, on general programs; every history's answers are compared "
                                  "with the Lean specification value. On ground programs without recursion the engine and its "
